@@ -9,7 +9,17 @@ game_query_mod!(
     Engine::new(33930),
     2304
 );
-game_query_mod!(basedefense, "Base Defense", Engine::new(632_730), 27015);
+game_query_mod!(
+    basedefense,
+    "Base Defense",
+    Engine::new(632_730),
+    27015,
+    GatheringSettings {
+        players: GatherToggle::Enforce,
+        rules: GatherToggle::Skip,
+        check_app_id: true,
+    }
+);
 game_query_mod!(alienswarm, "Alien Swarm", Engine::new(630), 27015);
 game_query_mod!(aoc, "Age of Chivalry", Engine::new(17510), 27015);
 game_query_mod!(
@@ -41,7 +51,7 @@ game_query_mod!(
 game_query_mod!(
     armareforger,
     "Arma Reforger",
-    Engine::new(0),
+    Engine::new(1_874_880),
     17777,
     GatheringSettings {
         players: GatherToggle::Enforce,
@@ -147,7 +157,17 @@ game_query_mod!(
     Engine::new(108_600),
     16261
 );
-game_query_mod!(risingworld, "Rising World", Engine::new(324_080), 4254);
+game_query_mod!(
+    risingworld,
+    "Rising World",
+    Engine::new(324_080),
+    4254,
+    GatheringSettings {
+        players: GatherToggle::Enforce,
+        rules: GatherToggle::Skip,
+        check_app_id: true,
+    }
+);
 game_query_mod!(ror2, "Risk of Rain 2", Engine::new(632_360), 27016);
 game_query_mod!(rust, "Rust", Engine::new(252_490), 27015);
 game_query_mod!(sco, "Sven Co-op", Engine::new_gold_src(false), 27015);
@@ -172,7 +192,12 @@ game_query_mod!(
     Engine::new_gold_src(false),
     27015
 );
-game_query_mod!(theforest, "The Forest", Engine::new(556_450), 27016);
+game_query_mod!(
+    theforest,
+    "The Forest",
+    Engine::new_with_dedicated(242_760, 556_450),
+    27016
+);
 game_query_mod!(thefront, "The Front", Engine::new(2_285_150), 27015);
 game_query_mod!(unturned, "Unturned", Engine::new(304_930), 27015);
 game_query_mod!(
